@@ -293,6 +293,13 @@ def extent_rules(chk, cr, q, ev, resolver, helper=False):
                 mx = call_name(a) == "numpy.maximum"
                 inner = [x for x in a[2] if find_atoms(x, lambda t: t[0] == "call" and call_name(t) in ("ceil", "floor"))]
                 lc = [x for x in a[2] if x.as_atom() and x.as_atom()[0] == "lc"]
+                if inner and not lc and e.loops and any(x.as_atom() and x.as_atom()[0] in ("obj", "call") and "inf" in x.key() for x in a[2]):
+                    # the running bound is re-seeded in every iteration: only the last atom's cells survive
+                    chk.ob("R03.2", CR, "Crystal." + q, f"{'upper' if mx else 'lower'} bounds are accumulated with "
+                           f"{'maximum over ceil from -inf' if mx else 'minimum over floor from +inf'}", False, node=e.node,
+                           fingerprint=f"accumulate:{'max' if mx else 'min'}", expected="the seed is set once, before the loop over the atoms",
+                           found=f"{call_name(a)} of a bound that is re-seeded inside the loop: {str(e.value)[:100]}")
+                    continue
                 if not inner or not lc:
                     continue
                 kinds = {call_name(t) for t in find_atoms(inner[0], lambda t: t[0] == "call" and call_name(t) in ("ceil", "floor"))}
